@@ -6,9 +6,7 @@ WT=/tmp/wt_verify_$$
 git -C /repo worktree add -f $WT HEAD >/dev/null 2>&1 || { echo "worktree failed"; exit 2; }
 cd $WT
 PYTHONPATH=$WT /venv/bin/python $D/demo.py >/dev/null 2>&1; base=$?
-if ! git apply $D/patch.diff 2>/dev/null; then
-  if ! git apply -3 $D/patch.diff 2>/dev/null; then echo "PATCH-DOES-NOT-APPLY"; cd /; git -C /repo worktree remove --force $WT; exit 3; fi
-fi
+if ! git apply $D/patch.diff 2>/dev/null; then echo "PATCH-DOES-NOT-APPLY"; cd /; git -C /repo worktree remove --force $WT; exit 3; fi
 PYTHONPATH=$WT /venv/bin/python $D/demo.py >/dev/null 2>&1; mut=$?
 tests=$(python3 /verif/tools/run_baseline.py $WT | head -1)
 cd /
